@@ -1,27 +1,15 @@
-(* Entry.v — entry points of the executable model, over the universal value [sx].
-   dispatch code arg: code selects the entry point. Used identically by the extracted OCaml
-   binary and by the generated cases_*.v files (Eval vm_compute). *)
-From RBQL Require Import Base Sx Like.
+(* Entry.v — the single entry point of the executable model, over the universal value [sx].
+   dispatch code arg: the code selects the entry point; each area owns its own Entry<Area>.v.
+   Used identically by the extracted OCaml binary and by generated cases files (Eval vm_compute).
+   Code ranges: 17 Like; 100-199 Csv; 200-299 Reader (py + js + utf8); 300-499 Engine; 500-599 Parser/Header; 600-699 Frontends/Isolation *)
+From RBQL Require Import Base Sx EntryLike EntryCsv EntryReader EntryEngine EntryParser EntryFront.
 
-Definition fl_of_sx (x : sx) : option flavour :=
-  match x with A n => Some (if N.eqb n 0 then Py else Js) | _ => None end.
-
-(* 17: like_seq  arg = L [fl; L [ L [text; pat]; ... ]]  ->  L [bool...] *)
-Definition ep_like (x : sx) : sx :=
-  match x with
-  | L [f; calls] =>
-      match fl_of_sx f, list_of_sx (fun c => match c with
-                                             | L [t; p] => match str_of_sx t, str_of_sx p with
-                                                           | Some t', Some p' => Some (t', p') | _, _ => None end
-                                             | _ => None end) calls with
-      | Some fl, Some cs => sx_of_list sx_of_bool (like_seq fl [] cs)
-      | _, _ => ERR
-      end
-  | _ => ERR
+Definition first_some (l : list (option sx)) : sx :=
+  match flat_map (fun o => match o with Some v => [v] | None => [] end) l with
+  | v :: _ => v
+  | [] => ERR
   end.
 
 Definition dispatch (code : N) (x : sx) : sx :=
-  match code with
-  | 17%N => ep_like x
-  | _ => ERR
-  end.
+  first_some [dispatch_like code x; dispatch_csv code x; dispatch_reader code x;
+              dispatch_engine code x; dispatch_parser code x; dispatch_front code x].
